@@ -20,7 +20,8 @@ From NS Require Gen.G02 Model.Extract Model.Split Proofs.PermExtract.
 From NS Require Gen.G07 Model.FqCommon Model.FqMelody Model.FqDrums Model.FqChords Model.FqPianoroll
   Model.FqPerformance Proofs.PermFq.
 From NS Require Proofs.PermCompose.
-From NS Require Gen.G14 Model.Sustain Proofs.PermSustain.
+From NS Require Gen.G14 Model.Sustain Proofs.PermSustain Proofs.PermSustainSpec Proofs.PermSustainTotal
+  Proofs.PermSustainFull.
 From NS Require Gen.G03 Model.TempoMap Model.MidiGlue Proofs.PermMidi.
 Import ListNotations.
 Local Open Scope Z_scope.
@@ -235,43 +236,64 @@ Theorem perm_invariant_quantize_then_extract : forall spq s s', seq_perm s s' ->
 Proof. exact PermCompose.perm_quantize_then_extract. Qed.
 Print Assumptions perm_invariant_quantize_then_extract.
 
-(** * apply_sustain_control_changes.
-      FULL statement, NOT proved (it needs the functional characterisation of the new end times that
-      C14 leaves open, [sustain_refines_spec]):
+(** * apply_sustain_control_changes (C14 model, which C14 proves equal to its declarative specification
+      [spec_notes] inside the quantifier).  Hypotheses = C14's quantifier: non-drum notes have start <= end
+      ([ordered_b]), no two non-drum notes of one pitch on one instrument overlap or start together
+      ([no_clash]); for total_time also: every note ends by total_time ([covered_b], part of a well-formed
+      sequence).  No hypothesis on the control changes is needed (coinciding pedal events included). *)
 
-        Theorem perm_invariant_sustain : forall ctl s s', seq_perm s s' ->
-          Su.ordered_b (s_notes s) = true -> Su.no_clash (s_notes s) = true ->
-          opt_rel seq_perm (Su.apply_sustain ctl s) (Su.apply_sustain ctl s').
+(** the specification itself: new end times included, the specified notes are the same multiset for every
+    storage order of the notes and of the control changes *)
+Theorem perm_invariant_sustain_specification : forall ctl ns ns' ccs ccs',
+  Su.no_clash ns = true -> Su.no_clash ns' = true -> Permutation ns ns' -> Permutation ccs ccs' ->
+  Permutation (Su.spec_notes ctl ns ccs) (Su.spec_notes ctl ns' ccs').
+Proof. exact PermSustainSpec.spec_notes_perm. Qed.
+Print Assumptions perm_invariant_sustain_specification.
 
-      Proved: the full statement when the pedal is never pressed, and for all inputs inside the
-      quantifier everything except the new END TIMES of the notes of pedalled instruments (and
-      total_time): same verdict; every other field the same multiset / equal; the notes the same
-      multiset up to their ends; drums and the notes of instruments without a pedal-down event the
-      same multiset, ends included. *)
+(** total_time of the result = max(old total_time, latest new end) — a function of the returned multiset *)
+Theorem C12_sustain_total_time : forall ctl s r,
+  Su.ordered_b (s_notes s) = true -> Su.no_clash (s_notes s) = true ->
+  Su.covered_b (s_total s) (s_notes s) = true -> Su.apply_sustain ctl s = Some r ->
+  s_total r = PermSustainTotal.max_end_from (s_total s) (s_notes r).
+Proof. exact PermSustainTotal.sustain_total_is_max. Qed.
+Print Assumptions C12_sustain_total_time.
+
+(** FULL statement: same QuantizationStatusError, or the same sequence as a multiset — notes with their new
+    end times, total_time, every other field *)
+Theorem perm_invariant_sustain : forall ctl s s', seq_perm s s' ->
+  Su.ordered_b (s_notes s) = true -> Su.no_clash (s_notes s) = true ->
+  Su.covered_b (s_total s) (s_notes s) = true ->
+  opt_rel seq_perm (Su.apply_sustain ctl s) (Su.apply_sustain ctl s').
+Proof. exact PermSustainFull.perm_sustain. Qed.
+Print Assumptions perm_invariant_sustain.
+
+(** without the total_time hypothesis: everything but total_time *)
+Theorem perm_invariant_sustain_notes : forall ctl s s', seq_perm s s' ->
+  Su.ordered_b (s_notes s) = true -> Su.no_clash (s_notes s) = true ->
+  match Su.apply_sustain ctl s, Su.apply_sustain ctl s' with
+  | Some r, Some r' => Permutation (s_notes r) (s_notes r') /\
+                       seq_perm (PS.without_notes_total r) (PS.without_notes_total r')
+  | None, None => True
+  | _, _ => False
+  end.
+Proof. exact PermSustainFull.perm_sustain_notes. Qed.
+Print Assumptions perm_invariant_sustain_notes.
+
+(** pedal never pressed: no [no_clash] / [covered_b] needed *)
 Theorem perm_invariant_sustain_no_pedal : forall ctl s s', seq_perm s s' -> Su.ordered_b (s_notes s) = true ->
   (forall c, In c (s_ccs s) -> cc_num c = ctl -> Su.is_on c = false) ->
   opt_rel seq_perm (Su.apply_sustain ctl s) (Su.apply_sustain ctl s').
 Proof. exact PS.perm_sustain_no_pedal. Qed.
 Print Assumptions perm_invariant_sustain_no_pedal.
 
-Theorem perm_invariant_sustain_partial : forall ctl s s', seq_perm s s' ->
-  Su.ordered_b (s_notes s) = true -> Su.no_clash (s_notes s) = true ->
-  match Su.apply_sustain ctl s, Su.apply_sustain ctl s' with
-  | Some r, Some r' =>
-      seq_perm (PS.without_notes_total r) (PS.without_notes_total r') /\
-      Permutation (map PS.erase_end (s_notes r)) (map PS.erase_end (s_notes r')) /\
-      Permutation (filter (PS.untouchable ctl (s_ccs s)) (s_notes r))
-                  (filter (PS.untouchable ctl (s_ccs s)) (s_notes r'))
-  | None, None => True
-  | _, _ => False
-  end.
-Proof. exact PS.perm_sustain_partial. Qed.
-Print Assumptions perm_invariant_sustain_partial.
-
 (** the sustain hypotheses are themselves independent of the storage order *)
-Theorem perm_invariant_sustain_hypotheses : forall ns ns', Permutation ns ns' ->
-  Su.ordered_b ns = Su.ordered_b ns' /\ (Su.no_clash ns = true -> Su.no_clash ns' = true).
-Proof. exact (fun ns ns' P => conj (PS.ordered_perm ns ns' P) (PS.no_clash_perm ns ns' P)). Qed.
+Theorem perm_invariant_sustain_hypotheses : forall tot ns ns', Permutation ns ns' ->
+  Su.ordered_b ns = Su.ordered_b ns' /\ (Su.no_clash ns = true -> Su.no_clash ns' = true) /\
+  Su.covered_b tot ns = Su.covered_b tot ns'.
+Proof.
+  exact (fun tot ns ns' P => conj (PS.ordered_perm ns ns' P)
+                             (conj (PS.no_clash_perm ns ns' P) (PermSustainFull.covered_perm tot ns ns' P))).
+Qed.
 Print Assumptions perm_invariant_sustain_hypotheses.
 
 (** * MIDI export (the note_sequence_to_pretty_midi glue): same resolution, initial tempo and tempo map;
